@@ -103,6 +103,13 @@ def gen_plan(seed: int, run: int, tier: str) -> dict:
             f["tear"] = frng.choice(["0", "1", "2", "mid", "last", "rand", "rand", "utf8"])
             f["tear_arg"] = frng.randrange(1 << 20)
         faults.append(f)
+        # records longer than one I/O block: the repair of a torn tail scans backwards in
+        # 4096-byte blocks, so the torn record itself must sometimes be longer than that
+        if journal and "tear" in f and frng.random() < 0.5:
+            big = "%s-" % v + "L" * frng.choice([4090, 4200, 6000, 9000, 13000])
+            tgt = tasks[v]["ops"][f["op_index"]]
+            tasks[v]["ops"][f["op_index"]] = {"op": "set_study_user_attr", "study": "S0", "key": "big" + v, "value": big}
+            f["tear"] = frng.choice(["rand", "rand", "last", "mid", "over4k"])
     cfg = {
         "deployment": kind,
         "p_line": rng.choice([0.0, 0.01, 0.05]),
@@ -156,6 +163,8 @@ def _tear_cut(f: dict, n: int, data_hint: bytes | None = None) -> int:
         return n // 2
     if t == "last":
         return n - 1
+    if t == "over4k":
+        return min(n - 1, 4097 + f.get("tear_arg", 0) % max(1, n - 4097)) if n > 4200 else n // 2
     return f.get("tear_arg", 0) % n if n > 0 else 0
 
 
